@@ -16,6 +16,11 @@ type tuple = [3]int
 type wcall struct {
 	input int
 	call
+	// reach probes only (stamps of the derived harness are s.Step() values: the step counter is not advanced)
+	task    *simrt.Task
+	changed bool // the write changed the value of the input
+	flip    bool // counter: ... and with it whether the input satisfies the condition
+	toTrue  bool // counter: the written value satisfies the condition
 }
 
 type dnode struct {
@@ -26,6 +31,10 @@ type dnode struct {
 	teardown func()
 	built    call
 	torn     call
+	// reach probes only
+	deps        []int // inputs the node depends on
+	byWriter    int   // runs of the node's compute function on a task other than the builder
+	writerTasks []*simrt.Task
 }
 
 func derivedBody(s *simrt.Sim) {
@@ -38,6 +47,8 @@ func derivedBody(s *simrt.Sim) {
 	}
 	in := func(i int) int { return ins[i].Get() }
 	var nodes []*dnode
+	var writes []*wcall
+	r := newReach(s)
 
 	// writers: each works on one input (different writers may share an input)
 	nwriters := 1 + s.Choose(3)
@@ -53,17 +64,22 @@ func derivedBody(s *simrt.Sim) {
 		s.Go(fmt.Sprintf("writer%d", i), func() {
 			for _, o := range ops {
 				yields(o.pre)
+				wc := &wcall{input: input, task: simrt.Current()}
+				writes = append(writes, wc)
+				wc.inv = s.Step()
+				prev, val := 0, o.val
 				switch o.kind {
 				case 0:
 					s.Logf("in%d.Set(%d)", input, o.val)
-					ins[input].Set(o.val)
+					prev = ins[input].Set(o.val)
 				case 1:
 					s.Logf("in%d.Compute(->%d)", input, o.val)
-					ins[input].Compute(func(int) int { return o.val })
+					prev = ins[input].Compute(func(int) int { return o.val })
 				case 2:
 					s.Logf("in%d.Set(0)", input)
-					ins[input].Set(0)
+					prev, val = ins[input].Set(0), 0
 				}
+				wc.ret, wc.changed = s.Step(), prev != val
 				s.Logf("write returned")
 			}
 		})
@@ -83,38 +99,64 @@ func derivedBody(s *simrt.Sim) {
 			yields(delay)
 			n := &dnode{name: fmt.Sprintf("n%d", i)}
 			nodes = append(nodes, n)
+			// note is called by the node's compute function (reach probes only): during the build it runs on the
+			// builder task, afterwards on the task of the writer whose change is being propagated
+			me := simrt.Current()
+			note := func() {
+				t := simrt.Current()
+				if t == me {
+					return
+				}
+				n.byWriter++
+				known := false
+				for _, k := range n.writerTasks {
+					known = known || k == t
+				}
+				if !known {
+					n.writerTasks = append(n.writerTasks, t)
+				}
+				r.hit("recomputed-by-writer-before-build-returned", n.built.ret == 0)
+				r.hit("recomputed-after-teardown-invoked", n.torn.inv != 0)
+			}
 			n.built.inv = s.Tick()
 			switch shape {
 			case 0:
 				n.shape = fmt.Sprintf("DerivedVariable(in%d)", x)
-				d := rx.NewDerivedVariable(func(_ tuple, a int) tuple { return tuple{a, 0, 0} }, ins[x])
+				n.deps = []int{x}
+				d := rx.NewDerivedVariable(func(_ tuple, a int) tuple { note(); return tuple{a, 0, 0} }, ins[x])
 				n.get, n.want, n.teardown = func() any { return d.Get() }, func() any { return tuple{in(x), 0, 0} }, d.Unsubscribe
 			case 1:
 				n.shape = fmt.Sprintf("DerivedVariable2(in%d,in%d)", x, y)
-				d := rx.NewDerivedVariable2(func(_ tuple, a, b int) tuple { return tuple{a, b, 0} }, ins[x], ins[y])
+				n.deps = []int{x, y}
+				d := rx.NewDerivedVariable2(func(_ tuple, a, b int) tuple { note(); return tuple{a, b, 0} }, ins[x], ins[y])
 				n.get, n.want, n.teardown = func() any { return d.Get() }, func() any { return tuple{in(x), in(y), 0} }, d.Unsubscribe
 			case 2:
 				n.shape = "DerivedVariable3(in0,in1,in2)"
-				d := rx.NewDerivedVariable3(func(_ tuple, a, b, c int) tuple { return tuple{a, b, c} }, ins[0], ins[1], ins[2])
+				n.deps = []int{0, 1, 2}
+				d := rx.NewDerivedVariable3(func(_ tuple, a, b, c int) tuple { note(); return tuple{a, b, c} }, ins[0], ins[1], ins[2])
 				n.get, n.want, n.teardown = func() any { return d.Get() }, func() any { return tuple{in(0), in(1), in(2)} }, d.Unsubscribe
 			case 3:
 				n.shape = fmt.Sprintf("InheritFrom(in%d)", x)
+				n.deps = []int{x}
 				v := rx.NewVariable[int]()
 				n.teardown = v.InheritFrom(ins[x])
 				n.get, n.want = func() any { return v.Get() }, func() any { return in(x) }
 			case 4:
 				n.shape = "DerivedVariable2(DerivedVariable2(in0,in1),in2)"
 				d1 := rx.NewDerivedVariable2(func(_ tuple, a, b int) tuple { return tuple{a, b, 0} }, ins[0], ins[1])
-				d2 := rx.NewDerivedVariable2(func(_ tuple, t tuple, c int) tuple { return tuple{t[0], t[1], c} }, d1, ins[2])
+				n.deps = []int{0, 1, 2}
+				d2 := rx.NewDerivedVariable2(func(_ tuple, t tuple, c int) tuple { note(); return tuple{t[0], t[1], c} }, d1, ins[2])
 				n.get, n.want, n.teardown = func() any { return d2.Get() }, func() any { return tuple{in(0), in(1), in(2)} }, d2.Unsubscribe
 			case 5:
 				n.shape = fmt.Sprintf("DeriveValueFrom(DerivedVariable2(in%d,in%d))", x, y)
 				v := rx.NewVariable[tuple]()
-				n.teardown = v.DeriveValueFrom(rx.NewDerivedVariable2(func(_ tuple, a, b int) tuple { return tuple{a, b, 0} }, ins[x], ins[y]))
+				n.deps = []int{x, y}
+				n.teardown = v.DeriveValueFrom(rx.NewDerivedVariable2(func(_ tuple, a, b int) tuple { note(); return tuple{a, b, 0} }, ins[x], ins[y]))
 				n.get, n.want = func() any { return v.Get() }, func() any { return tuple{in(x), in(y), 0} }
 			case 6:
 				n.shape = "DerivedVariable3(sum)"
-				d := rx.NewDerivedVariable3(func(_ int, a, b, c int) int { return a + b + c }, ins[0], ins[1], ins[2])
+				n.deps = []int{0, 1, 2}
+				d := rx.NewDerivedVariable3(func(_ int, a, b, c int) int { note(); return a + b + c }, ins[0], ins[1], ins[2])
 				n.get, n.want, n.teardown = func() any { return d.Get() }, func() any { return in(0) + in(1) + in(2) }, d.Unsubscribe
 			}
 			n.built.ret = s.Tick()
@@ -139,6 +181,32 @@ func derivedBody(s *simrt.Sim) {
 	left := s.Quiesce()
 	hx.Stuck(s, "deadlock", left, nil)
 	s.Logf("inputs %d %d %d", in(0), in(1), in(2))
+	for i, a := range writes {
+		r.hit("input-write-without-change", a.ret != 0 && !a.changed)
+		for _, b := range writes[i+1:] {
+			r.hit("writers-overlap-on-same-input", a.task != b.task && a.input == b.input && a.overlaps(&b.call))
+		}
+	}
+	for _, n := range nodes {
+		if n.built.ret == 0 {
+			continue
+		}
+		for i, a := range writes {
+			if !hasInt(n.deps, a.input) {
+				continue
+			}
+			r.hit("built-during-write-to-own-input", a.overlaps(&n.built))
+			r.hit("teardown-during-write-to-own-input", n.torn.inv != 0 && a.overlaps(&n.torn))
+			r.hit("input-changed-after-build-returned", n.torn.inv == 0 && a.changed && a.inv >= n.built.ret)
+			r.hit("input-written-after-teardown-returned", n.torn.ret != 0 && a.inv >= n.torn.ret)
+			for _, b := range writes[i+1:] {
+				r.hit("writes-to-two-inputs-of-one-node-overlap", n.torn.inv == 0 && hasInt(n.deps, b.input) && a.input != b.input && a.overlaps(&b.call) &&
+					a.retOrInf() > n.built.inv && b.retOrInf() > n.built.inv)
+			}
+		}
+		r.hit("recomputed-by-writer-more-than-once", n.byWriter >= 2)
+		r.hit("recomputed-by-two-different-writers", len(n.writerTasks) >= 2)
+	}
 	for _, n := range nodes {
 		if n.torn.inv != 0 {
 			continue // no longer derived
@@ -201,12 +269,13 @@ func counterBody(s *simrt.Sim) {
 		s.Go(fmt.Sprintf("writer%d", i), func() {
 			for _, o := range ops {
 				yields(o.pre)
-				wc := &wcall{input: input}
+				wc := &wcall{input: input, task: simrt.Current()}
 				writes = append(writes, wc)
 				wc.inv = s.Tick()
 				s.Logf("in%d.Set(%d)", input, o.val)
-				ins[input].Set(o.val)
+				prev := ins[input].Set(o.val)
 				wc.ret = s.Tick()
+				wc.changed, wc.flip, wc.toTrue = prev != o.val, cond(prev) != cond(o.val), cond(o.val)
 			}
 		})
 	}
@@ -246,6 +315,45 @@ func counterBody(s *simrt.Sim) {
 	// reading fixed in advance: an input whose monitor was unsubscribed keeps the contribution it had at that
 	// moment (Monitor's unsubscribe only stops following the input); if a write to that input overlapped the
 	// unsubscribe call either contribution is accepted
+	r := newReach(s)
+	// monitored: did m follow its input during the whole call wc?
+	monitored := func(m *monitor, wc *wcall) bool {
+		return m.input == wc.input && m.done.ret != 0 && m.done.ret < wc.inv && (m.unmon.inv == 0 || wc.ret < m.unmon.inv)
+	}
+	anyMonitored := func(wc *wcall) bool {
+		for _, m := range mons {
+			if monitored(m, wc) {
+				return true
+			}
+		}
+		return false
+	}
+	for i, a := range writes {
+		if !anyMonitored(a) {
+			continue
+		}
+		r.hit("monitored-input-flipped-condition-to-true", a.flip && a.toTrue)
+		r.hit("monitored-input-flipped-condition-to-false", a.flip && !a.toTrue)
+		r.hit("monitored-input-changed-without-flipping-condition", a.changed && !a.flip)
+		for _, b := range writes[i+1:] {
+			r.hit("writes-to-two-monitored-inputs-overlap", a.input != b.input && a.overlaps(&b.call) && anyMonitored(b))
+		}
+	}
+	for i, m := range mons {
+		if m.done.ret == 0 {
+			continue
+		}
+		for _, wc := range writes {
+			if wc.input != m.input {
+				continue
+			}
+			r.hit("monitor-overlaps-write-to-same-input", wc.overlaps(&m.done))
+			r.hit("input-flipped-condition-after-unmonitor-returned", m.unmon.ret != 0 && wc.inv > m.unmon.ret && wc.flip)
+		}
+		for _, o := range mons[i+1:] {
+			r.hit("input-monitored-twice-at-the-end", o.done.ret != 0 && o.input == m.input && o.unmon.inv == 0 && m.unmon.inv == 0)
+		}
+	}
 	lo, hi := 0, 0
 	desc := ""
 	for _, m := range mons {
@@ -267,6 +375,8 @@ func counterBody(s *simrt.Sim) {
 					raced = true
 				}
 			}
+			r.hit("unmonitor-overlaps-write-to-same-input", raced)
+			r.hit("unmonitored-while-condition-held", !raced && cond(m.valBefore))
 			if raced {
 				hi++
 				desc += fmt.Sprintf(" %s:unmonitored-during-write", m.name)
